@@ -25,7 +25,7 @@ deriving Inhabited
 structure LStacks where
   gsub : List Shape.Nested := []
   gpos : List Shape.Nested := []
-deriving Inhabited
+deriving Inhabited, DecidableEq, Repr
 
 /-- `for _, r := range s { seq = append(seq, glyph.Info{GID: cmap.Lookup(r), Text: []rune{r}}) }` -/
 def cmapMap (cmap : Nat → Nat) (s : List Nat) : List Shape.Glyph :=
